@@ -1063,6 +1063,14 @@ class KmipEngine(object):
 
         if session_groups is None:
             session_groups = [None]
+        else:
+            # If group information is provided but the policy only defines
+            # 'preset' controls, the 'preset' controls are enforced.
+            policy_bundle = None
+            if self._operation_policies:
+                policy_bundle = self._operation_policies.get(policy_name)
+            if policy_bundle and not policy_bundle.get('groups'):
+                session_groups = [None]
 
         for session_group in session_groups:
             allowed = self.is_allowed(
